@@ -3,7 +3,7 @@ from __future__ import annotations
 
 import ast
 
-from ..astu import U, S, has, walk_shallow, call_name, calls_in, kwarg, names_in
+from ..astu import U, S, has, same, walk_shallow, call_name, calls_in, kwarg, names_in
 from ..cfg import build, find_guards, defs_of
 from ..core import AnalysisError, Mutant, Rule, Twin
 from ..idioms import for_loops, target_names, exc_name
@@ -208,7 +208,7 @@ def r4_determinacy(ctx):
 def r5_canonical(ctx):
     fn, final, consts = _setup(ctx)
     a = CHEM + ":balance_stoichiometry"
-    divs = [s for s in fn.body if (isinstance(s, ast.AugAssign) and isinstance(s.op, ast.Div) and U(s.target) == "sol" and S(s.value) in ("reducegcd,sol", "gcdsol", "gcd*sol"))]
+    divs = [s for s in fn.body if (isinstance(s, ast.AugAssign) and isinstance(s.op, ast.Div) and U(s.target) == "sol" and (same(s.value, "reduce(gcd, sol)") or same(s.value, "gcd(sol)") or same(s.value, "gcd(*sol)")))]
     if not divs:
         ctx.violation(a, "gcd-division", "the solution vector is no longer divided by the gcd of its entries (coprimality)", node=fn)
         return
@@ -224,19 +224,19 @@ def r5_canonical(ctx):
         ok = g.must_pass({nd}, nf)
         # after the gcd division only value-preserving redefinitions (nsimplify) may follow
         later = [x for x in defs_of(g, "sol") if x in g.reach(nd) and nf in g.reach(x)]
-        ok2 = all(S(g.nodes[x].stmt) == "sol=nsimplifysol" for x in later)
+        ok2 = all(same(g.nodes[x].stmt, "sol = nsimplify(sol)") for x in later)
         ctx.check(ok and ok2, a, "gcd-division:mode=" + mode, "division by the gcd must follow the last external definition of sol on every path (mode %s); later definitions: %s" % (
             mode, [U(g.nodes[x].stmt) for x in later]), node=d)
     x = ctx.func(CHEM, "balance_stoichiometry._x")
     ret = [n for n in walk_shallow(x) if isinstance(n, ast.Return)][-1]
-    ctx.check(S(ret.value) == "intcoeffifunderdeterminedisNoneelsecoeff", a + "._x", "int-in-ilp-mode", "coefficients returned as %s" % U(ret.value), node=ret)
+    ctx.check(same(ret.value, "int(coeff) if underdetermined is None else coeff", scope=x), a + "._x", "int-in-ilp-mode", "coefficients returned as %s" % U(ret.value), node=ret)
 
 
 def r6_keys(ctx):
     fn, final, consts = _setup(ctx)
     a = CHEM + ":balance_stoichiometry"
     defs = [s for s in walk_shallow(fn) if isinstance(s, ast.Assign) and U(s.targets[0]) == "subst_keys"]
-    ctx.check(len(defs) == 1 and S(defs[0].value) == "listreactants+listproducts", a, "key-list", "subst_keys must be defined once as list(reactants) + list(products); found %s" % [U(d.value) for d in defs], node=fn)
+    ctx.check(len(defs) == 1 and same(defs[0].value, "list(reactants) + list(products)"), a, "key-list", "subst_keys must be defined once as list(reactants) + list(products); found %s" % [U(d.value) for d in defs], node=fn)
     A = [s for s in walk_shallow(fn) if isinstance(s, ast.Assign) and U(s.targets[0]) == "A" and "MutableDenseMatrix" in U(s.value)]
     ok = len(A) == 1 and has(A[0].value, "[[_get(ck, sk) for sk in subst_keys] for ck in cks]")
     ctx.check(ok, a, "matrix-columns=key-list", "matrix must have one column per subst_keys entry and one row per composition key; found %s" % (U(A[0].value) if A else None), node=fn)
@@ -245,7 +245,7 @@ def r6_keys(ctx):
     g_ = ctx.func(CHEM, "balance_stoichiometry._get")
     ctx.check(has(g_, "substances[sk].composition.get(ck, 0) * (-1 if sk in reactants else 1)"), a + "._get", "reactants-negated", "reactant columns must be negated: %s" % U(g_.body[-1]), node=g_)
     ok = isinstance(final.value, ast.Tuple) and len(final.value.elts) == 2 and \
-        S(final.value.elts[0]) == "OrderedDict[k,_xkforkinreactants]" and S(final.value.elts[1]) == "OrderedDict[k,_xkforkinproducts]"
+        same(final.value.elts[0], "OrderedDict([(k, _x(k)) for k in reactants])", scope=final) and same(final.value.elts[1], "OrderedDict([(k, _x(k)) for k in products])", scope=final)
     ctx.check(ok, a, "result-over-given-species", "the two results must be mappings over exactly `reactants` and `products`", node=final)
     ctx.check(has(fn, "cks = Substance.composition_keys(substances.values())"), a, "all-composition-keys", "rows must be all composition keys (incl. charge)", node=fn)
     ctx.check(has(fn, "sol, = linsolve((A, zeros(len(cks), 1)), symbs)"), a, "homogeneous-system", "the null space must be that of A x = 0", node=fn)
